@@ -25,7 +25,7 @@ PY = sys.executable
 
 def _env():
     env = dict(os.environ)
-    env["PYTHONPATH"] = ROOT + os.pathsep + "/repo" + os.pathsep + env.get("PYTHONPATH", "")
+    env["PYTHONPATH"] = ROOT + os.pathsep + os.environ.get("VERIF_REPO", "/repo") + os.pathsep + env.get("PYTHONPATH", "")
     env["PYTHONHASHSEED"] = env.get("VERIF_HASHSEED", "0")
     env.setdefault("HAPPYSIM_VERIF", "1")
     return env
